@@ -91,6 +91,7 @@ class Check:
         self.violations = []  # dicts
         self.known_hits = []
         self.replays = 0
+        self.witness_replays = 0
         self.notes = []
 
     def add_results(self, pairs):
@@ -144,6 +145,24 @@ class Check:
                 print("  obligation=%s signature=%s" % (ob["name"], sig))
                 print("  " + out.strip().replace("\n", "\n  ")[-1200:])
             seen_sig.add(sig)
+        # witness replays: for a few discharged obligations, one concrete input of an explored path (on which the solver says
+        # the assertion holds) is re-run on the real, unshimmed code; it must not show a violation there.  A disagreement
+        # means a stand-in or an oracle misrepresents the code: that obligation is downgraded to inconclusive.
+        wit = [(o, r) for o, r in self.results if r["status"] == "discharged" and r.get("witness")]
+        step = max(1, len(wit) // 6)
+        for ob, res in wit[::step][:6]:
+            path, rc, out = self.replay(ob, dict(res, model=res["witness"], info="witness of a discharged obligation"))
+            self.witness_replays += 1
+            if rc == 1:
+                print("  WITNESS-DIVERGENCE in %s: the symbolic run discharged a path on which the real code violates: %s" % (ob["name"], out.strip()[-300:]))
+                res["status"] = "inconclusive"
+                res["reason"] = "witness replay disagrees with the symbolic run: " + out.strip()[-300:]
+                inconc.append((ob, res))
+                n_dis -= 1
+            try:
+                os.remove(path)
+            except OSError:
+                pass
         for line in printed:
             print(line)
         wall = round(time.time() - self.t0, 2)
